@@ -115,11 +115,13 @@ theorem importSan_inv (g : GName) (s : SanType) (h : importSan g = .ok s) : reqS
   | other oid tag c =>
     simp only [importSan] at h
     split at h
-    · rename_i ht
-      split at h
-      · injection h with h; subst h; simp [reqSan, ht]
-      · cases h
     · cases h
+    · split at h
+      · rename_i ht
+        split at h
+        · injection h with h; subst h; simp [reqSan, ht]
+        · cases h
+      · cases h
 
 theorem importSans_inv (names : List GName) (s : List SanType) (h : importSans names = .ok s) :
     s.map reqSan = names := by
@@ -405,7 +407,7 @@ theorem ar_eku_guard (p p' : CertParams) (seen : List (List Nat)) (o : List Nat)
   split at h
   · cases h
   · split at h
-    · rename_i hall; exact hall
+    · rename_i hall; rw [Bool.and_eq_true] at hall; exact hall.1
     · cases h
 
 /-- **extended key usages**: the purposes the request asks for are all standard ones, and the
